@@ -46,6 +46,11 @@ def make_cfg(spec):
     if math.radians(7) >= aH:
         c.simulation.angle_from_limb = 0.5 * aH
     c.detector.radio.snr_threshold = 0.05
+    if alt == 2000.0:
+        c.detector.radio.low_frequency, c.detector.radio.high_frequency = 300.0, 1000.0
+    if alt == 1000.0:
+        c.detector.radio.low_frequency, c.detector.radio.high_frequency = 50.0, 200.0
+        c.simulation.tau_shower.table_version = "1"
     return c
 
 
@@ -262,8 +267,35 @@ def empties(ctx, si, payload):
                 ctx.violation("empty", f"{name} [{variant}]: returned {type(sim).__name__} with {len(sim) if sim is not None else None} rows and {len(sim.meta) if sim is not None else 0} header entries", wit)
 
 
+def sequence(ctx, si, payload):
+    """A, B, C, A, B in one process: a run must not depend on the runs made before it
+    (module- or class-level caches keyed too narrowly show up here)."""
+    inject.require_safe()
+    specs = [tuple(s_) for s_ in payload["specs"]]
+    first = {}
+    for rnd in range(2):
+        for spec in specs:
+            cfg = make_cfg(spec)
+            if rnd == 1 and spec[0] == "Diffuse":
+                pass
+            sim, log = run_one(cfg, payload["seed"], "synchronous")
+            ctx.count("sequence", max(len(sim) if sim is not None else 0, 1))
+            ctx.distinct.add(("sequence", spec, rnd))
+            if log.exception is not None:
+                ctx.exception("reproducible", f"{spec}: compute() raised in a sequence of different configurations", log.exception, {"spec": list(map(str, spec))})
+                continue
+            if rnd == 0:
+                first[spec] = sim
+            else:
+                d = diff_tables(first[spec], sim)
+                if d:
+                    ctx.violation("reproducible", f"{spec}, seed {payload['seed']}: the same seeded run gives a different table after other configurations were run in the same process: {d}", {"spec": list(map(str, spec)), "sequence": [list(map(str, s_)) for s_ in specs]})
+
+
 def entry(ctx, si, payload):
-    if payload["kind"] == "runs":
+    if payload["kind"] == "sequence":
+        sequence(ctx, si, payload)
+    elif payload["kind"] == "runs":
         shard(ctx, si, payload)
     else:
         empties(ctx, si, payload)
@@ -298,8 +330,10 @@ def run(ctx):
                 scs.append(f"adversarial:{sd * 7 + i}")
             P.append({"kind": "runs", "runs": [(sp, sd)], "schedulers": scs})
     P.append({"kind": "empty"})
+    P.append({"kind": "sequence", "seed": 21 + ctx.seed, "specs": [("Diffuse", "mono", "map", 525.0, 150), ("Diffuse", "power", "mono", 33.0, 150), ("Target", "mono", "map", 2000.0, 2500), ("Diffuse", "mono", None, 2000.0, 150)]})
+    P.append({"kind": "sequence", "seed": 22 + ctx.seed, "specs": [("Target", "power", None, 525.0, 2500), ("Target", "mono", "mono", 33.0, 2500), ("Diffuse", "power1", "map", 1000.0, 150)]})
     core.run_shards(ctx, "nssmon.checks.c14", "entry", P, workers=16, timeout=ctx.pick(1500, 7000))
-    for m in ("reproducible", "isolation", "structure", "empty"):
+    for m in ("reproducible", "isolation", "structure", "empty", "sequence"):
         ctx.require(m)
     return ctx.finish(
         rule="configurations from the cross product {Diffuse, Target} x {mono, power-law (also index 1)} x {no cloud, uniform cloud, pressure map} x altitudes {33, 525, 2000} km (quick: a covering subset of 12; thorough: all 36) x seeds; each: synchronous reference, threads-8 with small partitions, processes-2 or an adversarial executor, a repeated synchronous run, radio-off and optical-off runs; plus zero-survivor runs (N = 0 in both modes, a never-occulted target, a single dropped event) in all channel variants; a case is a distinct (configuration, seed, scheduler / variant)",
